@@ -1052,6 +1052,10 @@ func (fr *Frame) applyContract(st *State, c *FuncContract, key string, sig *type
 		assumePre = true
 		vc.assume("preconditions of " + key + " are assumed, not checked, at calls from package " + vc.rootPkg() + " (assumepre in its contract file)")
 	}
+	if rc := vc.contract; rc != nil && rc.AssumeCalleePre && !assumePre {
+		assumePre = true
+		vc.assume("preconditions of callees are assumed, not checked, inside " + vc.fullName + " (assumecalleepre: thin call-site contract)")
+	}
 	for _, rq := range c.Requires {
 		t, err := env.EvalBool(rq.E)
 		if err != nil {
